@@ -28,12 +28,19 @@ package vgirpc
 //@ func (*HttpServer).handleExchangeCall
 //@   property C16
 //@   at call stripFrameworkTickMetadata assert [ownmeta] arg0 == inputMeta
-//@   at call ExchangeState.Exchange assert [handlerclean] stripped(callCtx.InputMetadata) && arg3 == callCtx && arg1 == inputBatch
+//@   # (the handler is invoked inside the recovering function literal handleExchangeCall$1, which is
+//@   # created and called on the spot: what holds when it is called holds for the handler call in it)
+//@   at call (*HttpServer).handleExchangeCall$1 assert [handlerclean] stripped(callCtx.InputMetadata)
 //@   at call arrow.NewMetadata assert [cursoronsuccess] !errResp && exchangeErr == nil && err == nil
 //@   at call arrow.NewMetadata assert [cursorkey] len(arg0) >= 1 && arg0[len(arg0)-1] == MetaStreamState
 //@   at call arrow.NewMetadata assert [paired] len(arg0) == len(arg1)
 //@   at call arrow.NewMetadata assert [databatch] isDataBatch
 //@   at call (*HttpServer).packCursorToken assert [freshcursor] arg1 == callID && arg2 == iface(state) && arg3 == auth
+
+// the recovering literal hands the handler exactly this turn's context, input and collector
+//@ func (*HttpServer).handleExchangeCall$1
+//@   property C16
+//@   at call ExchangeState.Exchange assert [handlerargs] arg0 == state && arg1 == ctx && arg2 == inputBatch && arg3 == out && arg4 == callCtx
 
 // handleStreamCancel: the cancel hook runs (once: its only call site is outside any loop) inside
 // a recover, nothing is written to the stream, the response is an empty 200 stream, no cursor.
